@@ -204,6 +204,16 @@ Theorem range_grid_continues_domain_grid :
 Proof. exact resize_axis_grid. Qed.
 Print Assumptions range_grid_continues_domain_grid.
 
+(* T1: dtype, exponent and weighting of the range inferred from ran_shp are those of the
+   domain unless given in discr_kwargs ([range_attr] is regenerated from the four
+   `discr_kwargs.pop(attr, discr.attr)` statements of _resize_discr; the translator fails
+   closed when one of them no longer defaults to the domain's attribute).  With the
+   inherited constant weighting, [resize_adjoint_weighted] is the adjoint identity in the
+   weighted inner products also for a user-chosen weighting of the domain. *)
+Theorem inferred_range_inherits_domain_attributes :
+  forall (A : Type) (d : A), range_attr None d = d /\ forall v : A, range_attr (Some v) d = v.
+Proof. intros A d; split; reflexivity. Qed.
+
 (* T1: without an explicit offset the size change is distributed evenly, with preference
    for the left in case of ambiguity (docstring of ResizingOperator). *)
 Theorem default_offset_even_prefers_left : forall n n_new : Z,
